@@ -83,6 +83,12 @@ def catalogue(nix, np):
         add("Property.values", "unstorable_text_later_" + tk, lambda T, v=bad_text: setattr(T["p_text"], "values", ["q", v]))
         add("Property.extend_values", "unstorable_text_" + tk, lambda T, v=bad_text: T["p_text"].extend_values([v]))
         add("Property.unit", "unstorable_text_" + tk, lambda T, v=bad_text: setattr(T["p_float"], "unit", v))
+        # (the attributes of a property live on a dataset, not on a group: with a value already in place)
+        add("Property.unit", "unstorable_text_over_existing_" + tk, lambda T, v=bad_text: setattr(T["p_float"], "unit", v),
+            setup=lambda T: setattr(T["p_float"], "unit", "kHz"))
+        for attr in ("definition", "reference", "dependency", "dependency_value", "value_origin"):
+            add("Property." + attr, "unstorable_text_over_existing_" + tk, lambda T, v=bad_text, attr=attr: setattr(T["p_text"], attr, v),
+                setup=lambda T, attr=attr: setattr(T["p_text"], attr, "kept"))
         add("Section.create_property", "values_unstorable_text_" + tk, lambda T, v=bad_text, tk=tk: T["sec"].create_property("utp_" + tk, ["q", v]),
             lambda T, tk=tk: T["sec"].create_property("utp_" + tk, ["q"]))
         add("DataArray.append", "unstorable_text_" + tk, lambda T, v=bad_text: T["dtext"].append(np.array([v], dtype=object)))
